@@ -13,9 +13,8 @@
      moves_fit  each move mapping names an existing insertion and its target range ends inside it
                 (implied by the monitored contract moves_ok: C16_moves_ok_fit)
      valid_utf8 of the content for attributions_to_line_attributions.
-   Still open (tested by the oracle, not proved): C16_identity_keeps_lines for arbitrary priors
-   (proved here for merge-normal forms: C16_identity_fixpoint), C16_boundaries, C16_ws_reformat
-   (known class C16-K5, a property of the line-level diff, which is an oracle in this slice). *)
+   Still open (tested by the oracle, not proved): C16_boundaries, C16_ws_reformat (known class
+   C16-K5, a property of the line-level diff, which is an oracle in this slice). *)
 From Coq Require Import List NArith Bool.
 From Verif Require Import Base.Str Model.Tracker Proofs.TrackerProofs.
 Import ListNotations.
@@ -109,9 +108,29 @@ Theorem C16_equal_keeps_markers : forall attrs author ts f out pre d post a,
 Proof. exact equal_keeps_markers. Qed.
 Print Assumptions C16_equal_keeps_markers.
 
-(* an identical text (weaker than C16_identity_keeps_lines, which is tested but not proved): a list
-   in merge-normal form whose entries lie in the text (non-empty ranges, or markers before its end)
-   -- the shape of every output of update -- is returned unchanged, so its line attributions are too *)
+(* merge_attributions (sort, dedup, coalesce) changes no line's (author, overrode) *)
+Theorem C16_merge_keeps_lines : forall c l, valid_utf8 c = true -> to_lines (merge l) c = to_lines l c.
+Proof. exact merge_keeps_lines. Qed.
+Print Assumptions C16_merge_keeps_lines.
+
+(* an identical text keeps all line attributions: for ANY priors with start <= end (out of range,
+   zero-length, overlapping, unsorted, duplicated, equal ts), the facts being the single Equal segment *)
+Theorem C16_identity_keeps_lines : forall old attrs author ts,
+  valid_utf8 old = true -> Forall ordered attrs ->
+  update_lines old attrs author ts (mkFacts [(DEq, old)] [] []) = to_lines attrs old.
+Proof. exact identity_keeps_lines_any. Qed.
+Print Assumptions C16_identity_keeps_lines.
+
+(* the hypothesis start <= end is needed *)
+Theorem C16_identity_inverted_refuted :
+  exists old attrs author ts,
+    valid_utf8 old = true /\
+    res_lines_eqb (update_lines old attrs author ts (mkFacts [(DEq, old)] [] [])) (to_lines attrs old) = false.
+Proof. exact identity_inverted_refuted. Qed.
+Print Assumptions C16_identity_inverted_refuted.
+
+(* a list in merge-normal form whose entries lie in the text (non-empty ranges, or markers before its
+   end) -- the shape of every output of update -- is returned unchanged *)
 Theorem C16_identity_fixpoint : forall old attrs author ts,
   merge attrs = attrs -> Forall (in_text (blen old)) attrs ->
   update attrs author ts (mkFacts [(DEq, old)] [] []) = Ok attrs.
